@@ -1,9 +1,10 @@
 #!/bin/bash
-# seed-run.sh <seed id> <property> : apply the seeded change to /repo, run the property's quick check, undo.
+# seed-run.sh <seed id> <property> : apply the seeded change to /repo, run the property's quick check, undo
+# (reverse-apply, so that no other working-tree file of /repo is touched).
 cd /verif
-[ -n "$(git -C /repo status --porcelain)" ] && { echo 'refusing: /repo has uncommitted changes'; exit 4; }
-git -C /repo apply /verif/seeded/$1/patch.diff || { echo "patch does not apply"; exit 3; }
+git -C /repo apply --check /verif/seeded/$1/patch.diff || { echo "patch does not apply"; exit 3; }
+git -C /repo apply /verif/seeded/$1/patch.diff
 ./check $2 quick > /tmp/seedrun.$1.log 2>&1; rc=$?
-git -C /repo checkout -- . 
+git -C /repo apply -R /verif/seeded/$1/patch.diff || echo "WARNING: could not undo $1"
 echo "seed $1 property $2 exit=$rc"; grep -E "VIOLATION|KNOWN|ENGINE|UNDECIDED" /tmp/seedrun.$1.log | cut -c1-260
 exit $rc
